@@ -171,7 +171,7 @@ impl<'a> Interp<'a> {
                     "id":t.id,"name":t.name,"partitions_count":t.partitions,"partition_ids":(1..=t.partitions).collect::<Vec<u32>>(),
                     "listed_partitions_count":t.partitions,
                     "expiry":Self::expiry_resolved(t.expiry),"max_size":self.size_resolved(t.max_size),
-                    "repl":t.repl,"compression":CompressionAlgorithm::None.to_string(),
+                    "repl":t.repl,"compression":(if t.gzip { CompressionAlgorithm::Gzip } else { CompressionAlgorithm::None }).to_string(),
                     "messages_count":count,"by_name":bn,"groups":gv,
                     "offsets":if self.tcp.is_some() { t.offsets.iter().map(|((g, id), o)| (*g, *id, *o)).collect::<Vec<(bool, u32, u64)>>() } else { vec![] },
                 }));
